@@ -383,6 +383,82 @@ def replay_end_to_end(chk, rng, what):
     chk.harness_error("C05: '%s' did not reproduce on the shipped example" % what)
 
 
+def config_history_twin(chk, cc):
+    """Stage R(c), history twin: two Calculator loads in one process.  The real Calculator._load (real read_config /
+    apply_default_config, file readers and QHA adapter replaced by recorders) is run for settings file A and then for settings file B;
+    the grid / interpolation settings B's calculation receives must be 'B over the packaged defaults' -- nothing of A."""
+    import tempfile
+    import shutil
+    import yaml
+    import copy
+    import cij.data
+    tmp = tempfile.mkdtemp(prefix="c05cfg_")
+    try:
+        A = {"qha": {"input": "input01", "settings": {"NT": 7, "DT": 33.0, "NTV": 13, "volume_ratio": 1.37, "order": 4}},
+             "elast": {"input": "input02", "settings": {"mode_gamma": {"interpolator": "krogh", "order": 2}, "symmetry": {"system": "cubic"}}}}
+        B = {"qha": {"input": "input01", "settings": {"DT": 50.0}}, "elast": {"input": "input02"}}
+        for nm, cfg in (("a.yaml", A), ("b.yaml", B)):
+            with open(os.path.join(tmp, nm), "w") as fp:
+                yaml.safe_dump(cfg, fp)
+        with open(cij.data.get_data_fname("default/settings.yaml")) as fp:
+            defaults = yaml.load(fp, Loader=yaml.FullLoader)
+
+        def merge(u, d):
+            out = copy.deepcopy(d)
+            for k, v in u.items():
+                out[k] = merge(v, d[k]) if isinstance(v, dict) and isinstance(d.get(k), dict) else copy.deepcopy(v)
+            return out
+        seen = []
+        fake_trad = PC.Obj()
+        fake_trad.read_energy = lambda fn: PC.Obj()
+        fake_trad.read_elast_data = lambda fn: "elast"
+        real_io = cc.cij.io
+
+        class IO:
+            read_config = staticmethod(real_io.read_config)
+            apply_default_config = staticmethod(real_io.apply_default_config)
+            traditional = fake_trad
+
+        class FakeCij:
+            io = IO
+
+        def adapter(settings, qha_input):
+            seen.append(copy.deepcopy(settings))
+            return "adapter"
+
+        def replace_stub(self, **kw):
+            return self
+        PC.Obj._replace = replace_stub
+        PC.Obj.volumes = []
+        got = {}
+        with patched((cc, {"cij": FakeCij, "QHACalculatorAdapter": adapter})):
+            for nm in ("a.yaml", "b.yaml"):
+                calc = object.__new__(cc.Calculator)
+                calc._load(os.path.join(tmp, nm))
+                got[nm] = copy.deepcopy(calc.config)
+        want = merge(B, defaults)
+        bad = []
+        for sect, sub in (("qha", "settings"), ("elast", "settings")):
+            if got["b.yaml"][sect][sub] != want[sect][sub]:
+                diff = {k: (got["b.yaml"][sect][sub].get(k), want[sect][sub].get(k)) for k in set(got["b.yaml"][sect][sub]) | set(want[sect][sub])
+                        if got["b.yaml"][sect][sub].get(k) != want[sect][sub].get(k)}
+                bad.append("%s.%s: %s" % (sect, sub, diff))
+        if seen and seen[-1] != want["qha"]["settings"]:
+            bad.append("QHA adapter received %s" % {k: v for k, v in seen[-1].items() if want["qha"]["settings"].get(k) != v})
+        if bad:
+            chk.violation("history:configuration-leak", "a second Calculator load in the same process does not get 'its settings over the packaged "
+                          "defaults' (got, expected): %s" % "; ".join(bad)[:300], dict(first=A, second=B))
+        else:
+            chk.side_check("history twin: settings of a second Calculator load are its own file over the packaged defaults", True)
+    except Exception as e:
+        chk.note("config history twin not executed: %s: %s" % (type(e).__name__, e))
+    finally:
+        for attr in ("_replace", "volumes"):
+            if hasattr(PC.Obj, attr):
+                delattr(PC.Obj, attr)
+        shutil.rmtree(tmp, ignore_errors=True)
+
+
 def main():
     tier = os.environ.get("VERIF_TIER", "quick")
     if len(sys.argv) > 1:
@@ -399,6 +475,7 @@ def main():
     run_case(chk, cc, fm, False, tier, rng)
     run_case(chk, cc, fm, True, tier, rng)
     run_case(chk, cc, fm, False, tier, rng, system="cubic")
+    config_history_twin(chk, cc)
     # stage R(b): one real end-to-end run (catches constructor-level failures the stubs cannot see)
     if not _done[0]:
         import warnings
